@@ -276,6 +276,9 @@ func (e *Engine) globalCell(g *ssa.Global) *Cell {
 			c = e.newCell(e.mkErr("unexpected EOF"), g.String())
 		case "crypto/rand.Reader":
 			c = e.newCell(Iface{typ: e.fake("rand"), val: OpaqueV{kind: "rand"}}, g.String())
+		case "encoding/binary.BigEndian", "encoding/binary.LittleEndian":
+			// zero-size method carriers: their zero value is their value
+			c = e.newCell(e.zero(g.Type().(*types.Pointer).Elem()), g.String())
 		default:
 			e.unsupported("read of uninitialised foreign global " + g.String())
 		}
@@ -1190,7 +1193,11 @@ func interpAllowed(name string) bool {
 	switch name {
 	case "errors.New", "(*errors.errorString).Error",
 		"(*crypto/ecdsa.PrivateKey).Public", "(crypto/ed25519.PrivateKey).Public", "(*crypto/rsa.PrivateKey).Public",
-		"(*crypto/ed25519.PrivateKey).Public", "(*crypto/rsa.PublicKey).Size":
+		"(*crypto/ed25519.PrivateKey).Public", "(*crypto/rsa.PublicKey).Size",
+		"(encoding/binary.bigEndian).PutUint16", "(encoding/binary.bigEndian).PutUint32", "(encoding/binary.bigEndian).PutUint64",
+		"(encoding/binary.bigEndian).Uint16", "(encoding/binary.bigEndian).Uint32", "(encoding/binary.bigEndian).Uint64",
+		"(encoding/binary.littleEndian).PutUint16", "(encoding/binary.littleEndian).PutUint32", "(encoding/binary.littleEndian).PutUint64",
+		"(encoding/binary.littleEndian).Uint16", "(encoding/binary.littleEndian).Uint32", "(encoding/binary.littleEndian).Uint64":
 		return true
 	}
 	return false
